@@ -28,6 +28,7 @@ static const VSpec VM_SPEC[VM_NS] = {
 #define VM_NCFG 5
 #include "tier_c/machine_common.hpp"
 struct R : St<0> {}; struct O : St<1> {}; struct P : St<2> {}; struct P1 : St<3> {}; struct P2 : St<4> {}; struct Q : St<5> {}; struct Q1 : St<6> {}; struct Q2 : St<7> {}; struct X : St<8> {};
+#define VM_FOR_STATES(F_) F_(R, 0) F_(O, 1) F_(P, 2) F_(P1, 3) F_(P2, 4) F_(Q, 5) F_(Q1, 6) F_(Q2, 7) F_(X, 8)
 #include "tier_c/view.hpp"
 #include "tier_c/steps.hpp"
 #include "tier_c/entries.hpp"
